@@ -386,6 +386,16 @@ class FnBounds:
         cache[block] = out
         return out
 
+    def _term_gcd(self, d):
+        """gcd of the symbol terms of d (iteration counters scaled by their step, values masked with ~(g-1)); 1 if d has none"""
+        from math import gcd
+        self._strict_gap(Lin())          # makes sure the divisibility table exists
+        g = 0
+        for s_, c in d.items():
+            if s_ != 1:
+                g = gcd(g, abs(c) * self._divis.get(s_, 1))
+        return g if g > 1 else 1
+
     def _strict_gap(self, d):
         """d > 0 is known; if every term of d is a multiple of g (iteration counters scaled by g, values masked with ~(g-1)) then d >= g"""
         from math import gcd
@@ -534,6 +544,24 @@ class FnBounds:
                 Rg = R.add(g, -lg)
                 for j, h in enumerate(facts):
                     if i != j and self._trivially_nonneg(Rg.add(h, -1)):
+                        return True
+        # integer rounding: a fact (or the sum of two) whose symbol terms are all multiples of d says more than its constant shows:
+        # 30 - 4k >= 0 means 28 - 4k >= 0 (4k < len and len <= 31 give 4k <= 28, the last whole word below a 32-byte buffer)
+        def _rounded(F):
+            d_ = self._term_gcd(F)
+            if d_ > 1 and F.get(1, 0) % d_:
+                F2 = Lin(F)
+                F2[1] = (F.get(1, 0) // d_) * d_
+                if not F2[1]:
+                    del F2[1]
+                return F2
+            return None
+        if len(facts) <= 60:
+            for i, g in enumerate(facts):
+                for h in [None] + facts[i + 1:]:
+                    F = g if h is None else g.add(h)
+                    F2 = _rounded(F)
+                    if F2 is not None and self._trivially_nonneg(R.add(F2, -1)):
                         return True
         # ... plus two plain facts (block index < block count scaled by the block size, count*size <= length, byte index < size)
         if len(facts) <= 60:
